@@ -57,6 +57,9 @@ def generate(rng, tier, index):
             c = rng.derive("cfg", k)
             cfg = simgen.gen_planetary_config(c, integrators=[fams[k]], nmin=2, nmax=5, allow_var=c.chance(0.3))
             cfg.pop("units", None)
+            if fams.count(fams[k]) > 1 and rng.derive("samefeat").chance(0.5) and fams[k] != "sei":
+                # neighbours of one family also share the optional code paths (scratch buffers of the force callback, compensated summation, ...)
+                cfg["force"] = "drag"
             o = rng.derive("ops", k)
             ops = []
             for i in range(o.randint(2, 6)):
